@@ -332,7 +332,7 @@ Theorem getPayload_map s pt :
   wf_st s -> length pt = nranks s ->
   Store.step s (OGet pt) = (s, Done (RPay (ILeaf (map_of s pt)))).
 Proof.
-  intros (id & ow & es & Hr & Hn & Hw) Hlen. cbn [Store.step].
+  intros (id & ow & es & Hr & Hn & Hw) Hlen. cbn [Store.step Store.step0].
   rewrite guard_true by lia. rewrite (root_es_of s id ow es Hr).
   rewrite (get_pay_lookup (nranks s) (s_d s) pt O es Hn Hw) by lia.
   unfold map_of. rewrite (root_es_of s id ow es Hr). reflexivity.
@@ -343,7 +343,7 @@ Theorem getPayload_prefix s pt :
   exists id ow es', Store.step s (OGet pt) = (s, Done (RPay (INode id ow es')))
     /\ forall q, q <> [] -> map_of s (pt ++ q) = lookup_i (s_d s) q es'.
 Proof.
-  intros (id & ow & es & Hr & Hn & Hw) Hne Hlen. cbn [Store.step].
+  intros (id & ow & es & Hr & Hn & Hw) Hne Hlen. cbn [Store.step Store.step0].
   assert (Hpos : (0 < length pt)%nat) by (destruct pt; [congruence|cbn; lia]).
   rewrite guard_true by lia. rewrite (root_es_of s id ow es Hr).
   destruct (get_pay_prefix (nranks s) (s_d s) pt O es Hn Hw Hne) as (id' & ow' & e' & Hg & Hl); [lia|].
@@ -361,7 +361,7 @@ Theorem getPayloadRef_map s pt w :
 Proof.
   intros Hs Hlen. pose proof (step_wf s (OGetRef pt w) Hs) as Hwf'.
   destruct Hs as (id & ow & es & Hr & Hn & Hw). cbn zeta.
-  split; [|split; [|exact Hwf']]; cbn [Store.step]; rewrite guard_true by lia;
+  split; [|split; [|exact Hwf']]; cbn [Store.step Store.step0]; rewrite guard_true by lia;
     rewrite (root_es_of s id ow es Hr);
     destruct (get_ref_lookup (nranks s) (s_d s) w pt O es (s_next s) (s_ranks s) Hn Hw) as [Hres Hq];
     try lia;
@@ -377,7 +377,7 @@ Theorem reads_pure s o :
   match o with OGet _ | OGetPos _ _ _ | OGetSP _ _ _ | OGetD _ _ => True | _ => False end ->
   fst (Store.step s o) = s.
 Proof.
-  destruct o; intros H; try contradiction; cbn [Store.step];
+  destruct o; intros H; try contradiction; cbn [Store.step Store.step0];
     repeat match goal with
            | |- context [if ?b then _ else _] => destruct b
            | |- context [match fiber_at ?p ?e with Some _ => _ | None => _ end] => destruct (fiber_at p e)
